@@ -641,7 +641,15 @@ def _auto(prog, rep):
             return None
 
         try:
-            paths = Explorer(atom_truth, lambda st, state: None, max_paths=512).explore(fi.node.body, {"unsure": []})
+            # a loop over the constraints is walked for one representative constraint when there are some, and skipped
+            # (after checking that it IS such a loop) when there are none; other loops are walked once
+            def expand(st, state, has=has):
+                if isinstance(st, ast.For) and (cons_expr(st.iter) or any(cons_expr(x) for x in ast.walk(st.iter))):
+                    return has
+                return True
+            ex_ = Explorer(atom_truth, lambda st, state: None, max_paths=512, expand_loop=expand)
+            ex_.strict_loops = has       # without constraints the constraint loops do not run: their returns are unreachable
+            paths = ex_.explore(fi.node.body, {"unsure": []})
         except TooManyPaths:
             rep.undecided(f"{fi.name}: too many paths")
             return
